@@ -1887,6 +1887,56 @@ impl HashColumn {
 		Ok(())
 	}
 
+	/// Verification hook: raw structural dump (tables, index generations, ref counts).
+	#[cfg(parity_db_verif)]
+	pub fn verif_dump(&self, log: &Log) -> Result<crate::verif::ColumnDump> {
+		let tables = self.tables.read();
+		let reindex = self.reindex.read();
+		let mut d = crate::verif::ColumnDump::default();
+		for t in tables.value.iter() {
+			d.tables.push(t.verif_dump()?);
+		}
+		let dump_index = |index: &IndexTable| -> Result<crate::verif::IndexDump> {
+			let bits = index.id.index_bits();
+			let mut entries = Vec::new();
+			for c in 0..index.id.total_chunks() {
+				for (sub, e) in index.entries(c, log.overlays())?.iter().enumerate() {
+					if !e.is_empty() {
+						let a = e.address(bits);
+						entries.push((c, sub as u64, e.partial_key(bits), a.size_tier(), a.offset()));
+					}
+				}
+			}
+			Ok(crate::verif::IndexDump { bits, entries })
+		};
+		d.indexes.push(dump_index(&tables.index)?);
+		for e in reindex.queue.iter() {
+			if let ReindexEntry::Index(i) = e {
+				d.indexes.push(dump_index(i)?);
+			}
+		}
+		let dump_rc = |t: &RefCountTable| -> Result<(u8, Vec<(u64, u64)>)> {
+			let mut v = Vec::new();
+			for c in 0..t.id.total_chunks() {
+				for e in t.table_entries(c)?.iter() {
+					if !e.is_empty() {
+						v.push((e.address().as_u64(), e.ref_count()));
+					}
+				}
+			}
+			Ok((t.id.index_bits(), v))
+		};
+		if let Some(t) = &tables.ref_count {
+			d.ref_counts.push(dump_rc(t)?);
+		}
+		for e in reindex.queue.iter() {
+			if let ReindexEntry::RefCount(t) = e {
+				d.ref_counts.push(dump_rc(t)?);
+			}
+		}
+		Ok(d)
+	}
+
 	pub fn get_num_value_entries(&self) -> Result<u64> {
 		let tables = self.tables.read();
 		let mut num_entries = 0;
